@@ -126,7 +126,7 @@ def battery(C, modname):
     return out
 
 
-def run_history(hist, hid, flags, scope, redeclare=False):
+def run_history(hist, hid, flags, scope, redeclare=False, keep=None, slotted_first=False):
     """Materialise one decoration history twice: with classes.slotted, and as plain dataclasses."""
     from typelib.py import classes
     ms, mp = _new_module("s"), _new_module("p")
@@ -168,16 +168,21 @@ def run_history(hist, hid, flags, scope, redeclare=False):
               "flags": list(flags), "scope": scope, "src": src, "redeclares": rd or ""}
         with warnings.catch_warnings():
             warnings.simplefilter("ignore")
-            try:
-                exec(compile(src, "<verif-slotted>", "exec", dont_inherit=True), mp.__dict__)
-            except Exception as e:   # the plain twin must always be definable: machinery problem otherwise
-                raise tlc.MachineryError(f"plain twin not definable: {e!r}\n{src}")
+            def plain_side():
+                try:
+                    exec(compile(src, "<verif-slotted>", "exec", dont_inherit=True), mp.__dict__)
+                except Exception as e:   # the plain twin must always be definable: machinery problem otherwise
+                    raise tlc.MachineryError(f"plain twin not definable: {e!r}\n{src}")
+            if not slotted_first:
+                plain_side()
             try:
                 exec(compile(src, "<verif-slotted>", "exec", dont_inherit=True), ms.__dict__)
             except Exception as e:
                 ev["res"] = type(e).__name__ + ":" + ("guard" if "custom metaclass" in str(e) else "layout" if "slot" in str(e) else str(e)[:40])
-                if i not in ms._P:
-                    ms._P[i] = mp._P[i]
+            if slotted_first:
+                plain_side()
+            if ev["res"] != "ok" and i not in ms._P:
+                ms._P[i] = mp._P[i]
         ev["stack_after"] = len(classes._stack)
         if ev["res"] == "ok":
             Cs, Cp = ms._S[i], mp._S[i]
@@ -201,6 +206,8 @@ def run_history(hist, hid, flags, scope, redeclare=False):
         events.append(ev)
     for m in (ms, mp):
         sys.modules.pop(m.__name__, None)
+    if keep is not None:
+        keep.append(ms)          # the slotted classes live on (the caller keeps what the decorator returned)
     return events
 
 
@@ -252,6 +259,15 @@ def run(ctx: Ctx) -> Outcome:
         flags = FLAGSETS[hid % len(FLAGSETS)]
         scope = "local" if hid % 3 == 2 else "module"
         events += run_history(h, hid, flags, scope, redeclare=(hid % 4 == 1))
+    # churn: classes decorated one after another, every result kept, every undecorated class collected before the next one is
+    # made (a factory, make_dataclass in a loop): a new class may be given the address of a dead one
+    import gc
+    keepers: list = []
+    for k in range(90):
+        h = [{"name": "A", "nf": (k * 2 + k // 3) % 3, "base": 0, "baseform": "plain", "d": k % 2 == 1, "w": False}]
+        gc.collect()
+        events += run_history(h, 1_000_000 + k, FLAGSETS[k % 2], "module", keep=keepers, slotted_first=True)
+    del keepers
     tres, rejects = tlc.validate_trace("Slotted_Trace", "Slotted_Trace.cfg", [_slim(e) for e in events], timeout=3600)
     viol = _violations(rejects, events)
     # which __setstate__ each slotted class ends up with: spec/SlottedState.tla
